@@ -47,9 +47,9 @@ type Env struct {
 	globals map[string]Value
 }
 
-func (e *Env) push()                   { e.frames = append(e.frames, map[string]Value{}) }
-func (e *Env) pop()                    { e.frames = e.frames[:len(e.frames)-1] }
-func (e *Env) set(k string, v Value)   { e.frames[len(e.frames)-1][k] = v }
+func (e *Env) push()                 { e.frames = append(e.frames, map[string]Value{}) }
+func (e *Env) pop()                  { e.frames = e.frames[:len(e.frames)-1] }
+func (e *Env) set(k string, v Value) { e.frames[len(e.frames)-1][k] = v }
 func (e *Env) lookup(k string) (Value, bool) {
 	for i := len(e.frames) - 1; i >= 0; i-- {
 		if v, ok := e.frames[i][k]; ok {
